@@ -17,7 +17,7 @@ from .. import wire as W
 ID = "C04"
 CLAIM = dict(
     text="Kernel-checked: C04_records_prefix - for EVERY admissible history of records written by a fresh writer (any "
-         "number of records, any descriptors, nesting to any depth) and EVERY cut position k, the reader run over the "
+         "number of records and grouped records, any descriptors, nesting to any depth) and EVERY cut position k, the reader run over the "
          "first k bytes yields exactly the first n records written, unaltered and in order, where n is precisely the "
          "number of records whose frames lie completely within k bytes (no complete record skipped, none invented, "
          "none partly filled), and then stops with EOF (frame boundary / inside a 4-byte length), 'incomplete input' "
@@ -30,8 +30,8 @@ CLAIM = dict(
          "else an error; gzip cuts and failing/short writes give an intact prefix.",
     note="partial: that msgpack's C unpacker rejects a truncated document the way the model's decoder does (M5 is proved "
          "for the model) is exercised on every cut; zlib's behaviour on truncated input is the hypothesis "
-         "CodecLaws.truncation (exercised over every cut of the compressed file); grouped records are covered by the "
-         "correspondence, not by the theorem (PVOK excludes them).",
+         "CodecLaws.truncation (exercised over every cut of the compressed file). Holes (a producer that carries on "
+         "after a failed write) are outside the theorem's fault model and are covered by the real-code oracle only.",
     technique="Lean 4 induction over write histories and frame lists (every cut position) + msgpack prefix lemma + "
               "exhaustive-cut model/implementation correspondence",
     design="8/C04")
